@@ -228,7 +228,7 @@ def main(argv):
     c = []
     fns2 = SCALAR_FNS if not quick else ["sqrt", "exp", "ln", "sin", "abs"]
     partners = ["Vs", "Vv", "VT", "Vn", "Vg", "Vd", "Vw", "f"] if quick else ["Vs", "Vp", "Vv", "VT", "VA", "Vn", "Vg", "Vd", "Vw", "f", "v", "g"]
-    bops = ("mul", "add", "dot", "inner") if quick else ("mul", "add", "sub", "div", "pow", "dot", "inner", "outer")
+    bops = ("mul", "add", "dot", "inner") if quick else ("mul", "add", "div", "dot", "inner")
     for s in l1:
         if s.cond or s.fid:
             continue
